@@ -6,6 +6,30 @@ HOOK_COMMITS = ["ca6d3b8", "a1d2aab"]
 
 # id -> (technique, level text, level note, design ref)
 CLAIMED = {
+ "C02": ("bounded exhaustive enumeration of valid documents over an arithmetic value menu (all sequences of <=3 entries; two/three records; --now clock/date products) against an independent integer-minute evaluator",
+         "Every document of the families is evaluated by klog (service.Total/ShouldTotalSum/Diff, per record and per entry; a fixed stride also through `klog total --diff --decimal`, `klog json` and `klog print --with-totals` via the complete CLI) and compared with the reference evaluator: shifted times, the 24:00 spellings, overlapping ranges, duplicate dates, open ranges with and without --now (refusal conditions included).",
+         "Trusted: specmodel parser/evaluator. Bounds: <=3 entries per record, <=3 records.",
+         "DESIGN.md §4 C02"),
+ "C07": ("schedule-exhaustive DFS over a cooperative scheduler on the mechanically instrumented parallel parser (all interleavings for 2-3 workers with state pruning, preemption-bounded for 4-6), plus exhaustive inputs x worker counts against the serial parser",
+         "Two legs. (1) Inputs x chunkings: ALL token strings up to the bound x EVERY worker count 1..len+2 (a chunk boundary at every byte offset, inside multi-byte characters and CRLF) compared with the serial parser on records, blocks, line numbers and errors; the CLI clause over NumCpus {1,2,3,8}. (2) Schedules: goinstr rewrites go/chan/WaitGroup of the current parallel.go to the vrt scheduler; a stateless DFS explores every interleaving of workers, closer and collector (unbounded with sound state-key pruning for n<=3 (quick) / n<=4 (thorough), preemption-bounded above), checking deadlock, send-on-closed, thread panics and result equality on every execution; the search must observe all n! delivery orders (vacuity guard).",
+         "Trusted: vrt's model of channel/WaitGroup semantics (DESIGN Appendix C); goinstr's mechanical rewrite (re-derived from the tree at check time). Memory-model effects below synchronisation granularity are only covered by the separate -race pass.",
+         "DESIGN.md §4 C07"),
+ "C08": ("exhaustive enumeration of all accepted texts among token strings / formatting product / byte-menu documents; block lines compared with an independent line splitter, per-block re-parse, no-op reconcile identity",
+         "For every accepted text (serial and parallel with 2, 3 workers): the concatenated block lines equal the input byte for byte, overall line indices are consecutive from 0, every block has exactly one run of non-blank lines and re-parses to exactly its record, blank-only texts give no blocks, and a reconcile without steps returns the identical text.",
+         "Trusted: specmodel.SplitLines. 'Valid' = accepted by klog.",
+         "DESIGN.md §4 C08"),
+ "C10": ("exhaustive enumeration of single/double rule-violating edits at every line; error facts compared with an independent line splitter and the reference parser's first offending line; both renderings parsed back",
+         "Every rejected text of the families: each error's line exists and is quoted exactly, position/length stay within the line, ascending order, first error on the first line where the reference grammar has no continuation, identical errors from the parallel parser; the terminal report and the JSON report are parsed back and must show the same numbers.",
+         "Trusted: specmodel.Parse (first offending line), independent line splitter. Texts with don't-care zones or Zs-only lines are exempt from the first-line clause only.",
+         "DESIGN.md §4 C10"),
+ "C14": ("exhaustive enumeration of ALL summaries of <=6/7 symbols over a 13-symbol alphabet in every summary position against a hand-written tag scanner; totals family under all map orders within a deviation bound",
+         "Every string over the alphabet is scanned by klog (summary constructors and real parser) and by the reference scanner: tag list in canonical spelling and 22 match queries. Totals: every combination of 8 tag placements at record level and on 3 entries, through service.AggregateTotalsByTags, `klog tags -v -c` and `klog json`, under the canonical and (for a fixed stride) every non-canonical map iteration order within the bound.",
+         "Trusted: specmodel.ScanTags / per-entry set semantics; vrt.MapSeq owning all map ranges.",
+         "DESIGN.md §4 C14"),
+ "C20": ("bounded exhaustive enumeration of valid/invalid documents and of ALL short strings over a JSON-hostile alphabet; output parsed by an own strict RFC 8259 parser and compared field by field with the reference denotation",
+         "Every `klog json` output ({plain, --pretty, --sort asc/desc, --date}) must be one well-formed JSON document with exactly the documented keys, exactly one of records/errors non-null, every field equal to the reference denotation, the arithmetic relations holding, and for invalid input the error objects equal to the parser's errors and to the terminal report.",
+         "Trusted: specmodel.ParseJSON and specmodel.Parse. Invalid UTF-8 may only be coerced to U+FFFD.",
+         "DESIGN.md §4 C20"),
  "C06": ("exhaustive enumeration of ALL strings of <=k tokens over a 30-token hostile alphabet (and k+1 over a 16-token core), each run through the real serial and parallel parsers, all error renderers and every read-only command, in crash-isolated worker processes",
          "Totality is decided on a complete finite space: every string of at most 4 (quick) / 5 (thorough) tokens over an alphabet with one token per short-cut in the parser (dates, indentations, both line endings, lone CR, NBSP, invalid and truncated UTF-8, NUL, 20-digit and near-int64 numbers, every punctuation the grammar knows), plus long-line and hand-picked deep cases. Each is parsed serially and with 2 and 3 workers; the result shape is checked; every error accessor, the terminal and JSON error renderings are invoked; every accepted input runs through print/total/report(5 aggregations, fill, chart)/tags/today/json with two clock readings. A panic in a klog-started goroutine kills the worker and is attributed through a pre-written case marker, then confirmed by replay.",
          "Bounded by token count; the property's sampling clauses (coverage-guided mutation, random bytes) belong to a different technique family and are not covered. Known findings: huge-integer panics pinned by the existing tests.",
